@@ -103,7 +103,7 @@ def main():
             "repo": REPO, "pkg": MOD + "/" + pkgrel, "fn": h["fn"], "overlay": overlay,
             "known": active, "replay": True, "replay_dir": rdir,
             "native_zz": os.path.join(VERIF, "harness", "zzverif_native", "zzverif.go"),
-            "workers": int(os.environ.get("VERIF_WORKERS", "16")),
+            "workers": int(os.environ.get("VERIF_WORKERS", "16")), "replay_max": 5,
         }
         job.update(cfg)
         jp = os.path.join(wdir, h["name"] + ".job.json")
